@@ -264,8 +264,6 @@ func (tf *TextField) insertStringAtCursor(s string) {
 		next         = strings.Builder{}
 	)
 
-	count := graphemeCountInString(s)
-
 	for {
 		if len(rest) > 0 && i < tf.cursor {
 			cluster, rest, _, state = uniseg.FirstGraphemeClusterInString(rest, state)
@@ -275,13 +273,24 @@ func (tf *TextField) insertStringAtCursor(s string) {
 		}
 		// insert the string
 		next.WriteString(s)
-		// advance the cursor
-		tf.cursor += count
-		next.WriteString(rest)
 		break
 	}
+	end := next.Len()
+	next.WriteString(rest)
 
 	tf.Value = next.String()
+
+	// The inserted text can join the cluster before the cursor (a combining
+	// mark typed after its base) or the one behind it. The cursor goes
+	// behind the cluster which holds the end of the inserted text
+	rest = tf.Value
+	state = -1
+	tf.cursor = 0
+	for n := 0; len(rest) > 0 && n < end; {
+		cluster, rest, _, state = uniseg.FirstGraphemeClusterInString(rest, state)
+		n += len(cluster)
+		tf.cursor += 1
+	}
 }
 
 func graphemeCountInString(s string) uint {
